@@ -298,8 +298,8 @@ class Mon:
         if self.on('C07'):
             if acted and kind == 'Pressed':
                 self.block_press = norep_fire
-            elif self.block_press and pressed_now:
-                self.fail('C07', 'a key was pressed on the virtual keyboard after a no-repeat firing and before the next physical press', (i, pressed_now))
+            elif self.block_press and pressed_now and kind == 'Released':
+                self.fail('C07', 'a release event made a key held again after a no-repeat firing', (i, pressed_now))
         elif acted and kind == 'Pressed':
             self.block_press = False
 
